@@ -70,22 +70,51 @@ def check(cx):
                  "block zero and calls sync_all on every success path; sync_all is the last effect", floor=3)
     pf = cx.guard(r3, "perform_flush", p.fn, K.WAL + "::perform_flush")
     if pf:
-        writes = [c for c in pf.calls() if c.callee == "std::io::Write::write_all" or c.callee.endswith("::write_all")]
-        seeks = [c for c in pf.calls() if c.callee.endswith("as std::io::Seek>::seek")]
+        def is_write(x):
+            return x == "std::io::Write::write_all" or x.endswith("::write_all")
+
+        def is_seek(x):
+            return x.endswith("as std::io::Seek>::seek")
+        # a write may also be a call of a method of the log that always writes (write_header, a seek-and-write helper)
+        WAL_METHODS = {g.id for g in p.raw_fns.values() if g.impl_adt == "io::wal::WriteAheadLog" and g.id != pf.id}
+        W_ = {g for g in WAL_METHODS if any(is_write(c.callee) for c in p.fn(g).calls())
+              and p.all_success_paths_call(p.fn(g), {c.callee for c in p.fn(g).calls() if is_write(c.callee)}, 0)}
+        S_ = {g for g in W_ if any(is_seek(c.callee) for c in p.fn(g).calls())}
+
+        def hdr_helper(g):
+            f_ = p.fn(g)
+            return any(is_write(c.callee) and any(f_.locals[l].find("BlockZeroHeader") >= 0 for l in f_.provenance_locals(op_local(c.args[1])) if l < len(f_.locals))
+                       for c in f_.calls() if len(c.args) > 1 and op_local(c.args[1]) is not None)
+        H_ = {g for g in W_ if hdr_helper(g)}
+        writes = [c for c in pf.calls() if is_write(c.callee) or c.callee in W_]
+        seeks = [c for c in pf.calls() if is_seek(c.callee) or c.callee in S_]
         syncs = [c for c in pf.calls() if c.callee.endswith("::sync_all")]
-        cx.verdict(len(writes) >= 3 and len(seeks) >= 3, r3, "writes", pf.where(),
+        cx.verdict(len(writes) >= 2 and len(seeks) >= 2, r3, "writes", pf.where(),
                    "%d block writes / %d seeks" % (len(writes), len(seeks)),
-                   "perform_flush has %d write_all / %d seek calls; queued blocks, current block and block zero "
+                   "perform_flush has %d write_all / %d seek calls; the data blocks and block zero "
                    "need one each" % (len(writes), len(seeks)))
         good = bool(syncs) and p.all_success_paths_call(pf, {s.callee for s in syncs}, 0)
         cx.verdict(good, r3, "sync", pf.where(), "every success path ends in sync_all",
                    "a success path of perform_flush returns without sync_all")
         # block zero (the header, the only place that records total_blocks) is written on every success path
-        hdr_writes = [c for c in writes if any(
-            pf.locals[l].find("BlockZeroHeader") >= 0 for l in pf.dep_closure(op_local(c.args[1])) if l < len(pf.locals))]
+        hdr_writes = [c for c in writes if c.callee in H_ or (is_write(c.callee) and len(c.args) > 1 and op_local(c.args[1]) is not None and any(
+            pf.locals[l].find("BlockZeroHeader") >= 0 for l in pf.provenance_locals(op_local(c.args[1])) if l < len(pf.locals)))]
         good = bool(hdr_writes) and not pf.success_returns_from(0, blocked={c.bb for c in hdr_writes})
         cx.verdict(good, r3, "header-write", pf.where(), "block zero is rewritten on every success path",
                    "a success path of perform_flush does not write block zero (the block count would be stale)")
+        # block zero is the last block written: it is what makes the data blocks of this force part of the log, so a
+        # crash between the two writes must leave the old header and not a header that counts blocks not yet written
+        data_writes = [c for c in writes if c not in hdr_writes and not (c.term.get("inlined") and c.callee in W_)]
+        if hdr_writes and data_writes:
+            after = set()
+            for h in hdr_writes:
+                after |= pf.reachable(h.bb)
+                after.discard(h.bb)
+            late = [c for c in data_writes if c.bb in after]
+            cx.verdict(not late, r3, "header-last", (late[0] if late else pf).where() if late else pf.where(),
+                       "no data block is written after block zero",
+                       "a data block is written after block zero: a crash in between leaves a header that counts "
+                       "blocks the file does not hold")
         # and the sync comes after the header write
         if hdr_writes and syncs:
             good = all(any(pf.dominates(h.bb, s.bb) for h in hdr_writes) for s in syncs)
@@ -111,6 +140,19 @@ def check(cx):
                             pos_locals.add(s["dst"][0])
         data_seeks = []
         for c in seeks if pf else []:
+            if not is_seek(c.callee):
+                if c.term.get("inlined") or c.callee in H_:
+                    continue  # the helper's own seek is in the view / the header write at offset 0
+                cl = set()
+                for a in c.args:
+                    if op_local(a) is not None:
+                        cl |= pf.dep_closure(op_local(a))
+                data_seeks.append(c)
+                cx.verdict(bool(cl & pos_locals), r4, "seek-offset@%d" % len(data_seeks), c.where(),
+                           "an argument of the positioned-write helper depends on log position state %s" % sorted(pos_fields),
+                           "the offset of this block write depends only on block_size/constants: every force "
+                           "rewrites the same blocks (D1)")
+                continue
             # SeekFrom::Start(x): find the aggregate feeding arg 1
             l = op_local(c.args[1])
             cl = pf.dep_closure(l)
